@@ -224,6 +224,12 @@ var (
 // call performs one RPC from t's incarnation to target. It blocks the calling raft
 // goroutine until the response arrives or the transport timeout fires.
 func (t *SimTransport) call(kind string, target raft.ServerAddress, req any, snap []byte, term uint64) (any, error) {
+	return t.callOpt(kind, target, req, snap, term, false)
+}
+
+// callOpt: pipeline marks requests sent through an AppendPipeline (several are in flight at once, so
+// their answers are not the steps of a walk-back).
+func (t *SimTransport) callOpt(kind string, target raft.ServerAddress, req any, snap []byte, term uint64, pipeline bool) (any, error) {
 	n := t.net
 	w := n.w
 	t.inc.checkAlive()
@@ -243,7 +249,7 @@ func (t *SimTransport) call(kind string, target raft.ServerAddress, req any, sna
 	}
 	n.nextID++
 	m := &Msg{ID: n.nextID, Kind: kind, Src: t.inc.node.idx, SrcInc: t.inc.n, Dst: dst.idx, Term: term, Req: req, Snap: snap,
-		SentSeq: w.sim.Tick(), SentAt: w.now()}
+		SentSeq: w.sim.Tick(), SentAt: w.now(), Pipeline: pipeline}
 	n.msgs = append(n.msgs, m)
 	w.stats.Msgs[kind]++
 	w.or.onSend(t.inc, m)
@@ -492,7 +498,7 @@ func (n *Net) newPipeline(t *SimTransport, id raft.ServerID, target raft.ServerA
 			if isHeartbeat(f.args) {
 				kind = "HB"
 			}
-			r, err := t.call(kind, target, cloneAE(f.args), nil, f.args.Term)
+			r, err := t.callOpt(kind, target, cloneAE(f.args), nil, f.args.Term, true)
 			if err != nil {
 				f.err = err
 				broken = true
